@@ -29,3 +29,49 @@ LOGIC_COLUMNS = [
 ]
 # attributes whose values get the yes/no -> true()/false() normalisation
 TRUTH_NORMALISED = ("relevant", "required", "readonly", "constraint", "calculate")
+
+
+# --- question type table (C04) -------------------------------------------------------------
+# Written from the XLSForm reference (xlsform.org "Question types", "Metadata") and the ODK XForms
+# spec (bind types, body controls, media types); not read from pyxform's question_type_dictionary.
+# type cell -> (body control tag or None, bind type, {control attributes}, {bind attributes})
+QUESTION_TYPES = [
+    ("integer", "input", "int", {}, {}),
+    ("decimal", "input", "decimal", {}, {}),
+    ("text", "input", "string", {}, {}),
+    ("note", "input", "string", {}, {"readonly": "true()"}),
+    ("geopoint", "input", "geopoint", {}, {}),
+    ("geotrace", "input", "geotrace", {}, {}),
+    ("geoshape", "input", "geoshape", {}, {}),
+    ("date", "input", "date", {}, {}),
+    ("time", "input", "time", {}, {}),
+    ("dateTime", "input", "dateTime", {}, {}),
+    ("barcode", "input", "barcode", {}, {}),
+    ("image", "upload", "binary", {"mediatype": "image/*"}, {}),
+    ("audio", "upload", "binary", {"mediatype": "audio/*"}, {}),
+    ("video", "upload", "binary", {"mediatype": "video/*"}, {}),
+    ("file", "upload", "binary", {"mediatype": "application/*"}, {}),
+    ("acknowledge", "trigger", "string", {}, {}),
+    ("range", "range", "int", {"start": "1", "end": "10", "step": "1"}, {}),
+    ("select_one l1", "select1", "string", {}, {}),
+    ("select_multiple l1", "select", "string", {}, {}),
+    ("rank l1", "odk:rank", "odk:rank", {}, {}),
+    ("hidden", None, "string", {}, {}),
+    ("background-audio", None, "binary", {}, {}),
+    ("start", None, "dateTime", {}, {"jr:preload": "timestamp", "jr:preloadParams": "start"}),
+    ("end", None, "dateTime", {}, {"jr:preload": "timestamp", "jr:preloadParams": "end"}),
+    ("today", None, "date", {}, {"jr:preload": "date", "jr:preloadParams": "today"}),
+    ("deviceid", None, "string", {}, {"jr:preload": "property", "jr:preloadParams": "deviceid"}),
+    ("username", None, "string", {}, {"jr:preload": "property", "jr:preloadParams": "username"}),
+    ("phonenumber", None, "string", {}, {"jr:preload": "property", "jr:preloadParams": "phonenumber"}),
+    ("email", None, "string", {}, {"jr:preload": "property", "jr:preloadParams": "email"}),
+    ("start-geopoint", None, "geopoint", {}, {}),
+    # documented alias spellings of the above
+    ("int", "input", "int", {}, {}),
+    ("string", "input", "string", {}, {}),
+    ("photo", "upload", "binary", {"mediatype": "image/*"}, {}),
+    ("location", "input", "geopoint", {}, {}),
+    ("datetime", "input", "dateTime", {}, {}),
+    ("select one l1", "select1", "string", {}, {}),
+    ("select all that apply from l1", "select", "string", {}, {}),
+]
